@@ -28,7 +28,7 @@ def shards(variant, monitor, n, args, **kw):
 prop("C19", level="exploration",
      title="Address arithmetic reports overflow instead of wrapping",
      technique="reference-model monitor: every checked/overflowing/align/bit/order operation of GuestAddress and MemoryRegionAddress compared with exact 128-bit arithmetic over an enumerated boundary cross product plus random 64-bit operands, in overflow-checked and unchecked builds",
-     rule="cases = (address type, operation, a, b) with a,b from the complete cross product of {0..16, 2^32+-16, 2^63+-16, 2^64-16..2^64-1} (99x99 pairs x 2 types), all 64 power-of-two alignments for each operand, plus seeded random 64-bit pairs (uniform, near-equal, near-complement, shifted); distinct key = (type, operation, boundary class of a, boundary class of b, outcome some/none/fit/wrap) and for align (type, class of a, k, outcome); all keys are non-trivial (each involves a boundary class or an outcome class)",
+     rule="every check is instantiated twice per address type: with method-call syntax on the CONCRETE type (as user code reaches it - an inherent method shadowing the trait's would be the one checked) and generically through the Address trait. cases = (address type, operation, a, b) with a,b from the complete cross product of {0..16, 2^32+-16, 2^63+-16, 2^64-16..2^64-1} (99x99 pairs x 2 types), all 64 power-of-two alignments for each operand, plus seeded random 64-bit pairs (uniform, near-equal, near-complement, shifted); distinct key = (type, operation, boundary class of a, boundary class of b, outcome some/none/fit/wrap) and for align (type, class of a, k, outcome); all keys are non-trivial (each involves a boundary class or an outcome class)",
      exhaustive_note="the 99x99 boundary cross product and all 64 alignments per operand are enumerated completely; the 64-bit space itself is sampled",
      assumptions=["u128/i128 arithmetic of rustc is the trusted oracle", "unchecked_* helpers are only judged where the exact result fits (documented to follow Rust overflow behaviour otherwise)"],
      level_text="Runtime oracle over an exhaustively enumerated boundary grid plus ~10^6 (quick) / 10^8 (thorough) random operand pairs in two build profiles; held-on-observed, not a proof over all 2^128 pairs.",
@@ -101,7 +101,7 @@ FLOORS["C02"] = {"judged_queries": 2_000_000, "distinct_nontrivial": 2000}
 prop("C09", level="exploration",
      title="The page bitmap behaves as a set of page numbers under every operation sequence",
      technique="reference-model monitor: AtomicBitmap (plus RefSlice/ArcSlice views, Option and unit bitmaps) stepped against a BTreeSet model with a full read-out of every observable after every operation; single operations enumerated completely on a small space, random operation sequences beyond; Miri pass in the thorough tier",
-     rule="cases = operation sequences on (byte_size, page_size). Exhaustive part: byte_size 0..20 x page in {1,2,3} x 4 structured initial states x every single operation with (start,len) in 0..22 x 0..22 (set/reset range), every bit index 0..22 (set/reset bit), get_and_reset, reset, clone. Random part: sizes {0,1,p-1,p,p+1,63p..65p,127p..129p,<=10^4}, pages {1,2,3,5,7,64,100,128,4096,>size}, 30..300 operations incl. enlarge, clone, nested slice_at views (RefSlice and ArcSlice) with wrapping offsets, ranges near usize::MAX. After every step: is_bit_set for 0..pages+130, is_addr_set/dirty_at at every page start/end and extremes, len, byte_size, clone().get_and_reset() words, clone independence. distinct key = (operation, page-size class, page-count class, range class, enlarge/clone depth); all keys non-trivial",
+     rule="cases = operation sequences on (byte_size, page_size). Exhaustive part: byte_size 0..20 x page in {1,2,3} x 4 structured initial states x every single operation with (start,len) in 0..22 x 0..22 (set/reset range), every bit index 0..22 (set/reset bit), get_and_reset, reset, clone, clone_from into a differently sized destination with every page dirty. Random part: sizes {0,1,p-1,p,p+1,63p..65p,127p..129p,<=10^4}, pages {1,2,3,5,7,64,100,128,4096,>size}, 30..300 operations incl. enlarge, clone, clone_from into a destination with fewer / equal / more 64-page words and another page size, nested slice_at views (RefSlice and ArcSlice) with wrapping offsets, ranges near usize::MAX. After every step: is_bit_set for 0..pages+130, is_addr_set/dirty_at at every page start/end and extremes, len, byte_size, clone().get_and_reset() words, clone independence. distinct key = (operation, page-size class, page-count class, range class, enlarge/clone depth); all keys non-trivial",
      exhaustive_note="every single range/bit operation with arguments <= 22 from 4 structured states for byte_size <= 20 and page size 1..3",
      assumptions=["BTreeSet model in mon_c09.rs is the specification (ranges running past usize::MAX saturate)"],
      level_text="Model-based runtime oracle with full read-out after every step over an exhaustively enumerated small space and thousands of random sequences; held-on-observed.",
@@ -127,7 +127,7 @@ FLOORS["C09"] = {"exhaustive_single_ops": 200_000, "distinct_nontrivial": 800}
 prop("C10", level="exploration",
      title="Adding or removing a region yields a new valid map and leaves the old one intact",
      technique="history monitor with a list model: from_arc_regions / insert_region / remove_region / clone / writes through shared regions; every map and region handle ever produced is kept alive and re-listed and fully re-read (library path and raw pointer) after every step; complete pairwise boundary grid; Miri pass in the thorough tier",
-     rule="cases = histories of 10..60 steps (insert with adjacency classes free/adjacent/gap-1/overlap-1/overlap-n/equal-start relative to an existing region, remove with exact/size+-1/start+-1/last-byte/absent arguments, construction from shuffled/duplicated/empty lists of shared Arcs, clone, write through a shared region, drop of maps and handles) from random starting layouts incl. 1-byte regions and regions next to 2^64. Grid part (enumerated completely): region lengths {1,2,7,4096}^2 x distance prev-end..next-start in {-2..2} x both list orders for construction and both insertion directions; GuestRegionMmap::new with base+size in 2^64-2..2^64+2. distinct key = (step kind, outcome/error variant, adjacency class, maps-alive bucket); all non-trivial",
+     rule="cases = histories of 10..60 steps (insert of a fresh region with adjacency classes free/adjacent/gap-1/overlap-1/overlap-n/equal-start relative to an existing region, insert of an EXISTING handle - the very Arc the target map holds, or one removed from / refused by some map earlier -, remove with exact/size+-1/start+-1/last-byte/absent arguments, construction from shuffled/duplicated/empty lists of shared Arcs, clone, write through a shared region, drop of maps and handles) from random starting layouts incl. 1-byte regions and regions next to 2^64. Grid part (enumerated completely): region lengths {1,2,7,4096}^2 x distance prev-end..next-start in {-2..2} x both list orders for construction and both insertion directions; GuestRegionMmap::new with base+size in 2^64-2..2^64+2. distinct key = (step kind, outcome/error variant, adjacency class, maps-alive bucket); all non-trivial",
      exhaustive_note="pairwise boundary grid (4x4 lengths x 5 distances x 2 orders / 2 directions) and the base+size bound at 2^64",
      assumptions=["list model in mon_c10.rs is the specification", "when a construction list is both unsorted and overlapping either error variant is accepted", "base+size == 2^64 is recorded, not judged"],
      level_text="Model-based history monitor with frame checks over all live maps after every step; held-on-observed.",
@@ -150,7 +150,7 @@ FLOORS["C10"] = {"evaluations": 100_000, "distinct_nontrivial": 80}
 prop("C01", level="exploration",
      title="Every accessor handed out stays inside its parent memory and is aligned",
      technique="extent monitor over random derivation chains: the extent every accessor reports about itself (ptr_guard, len, reference address) is compared in 128-bit arithmetic with parent and root; every accessor is then used while PROT_NONE guard pages, canaries, mapping slack, ASan and Miri watch for accesses outside the root",
-     rule="cases = derivation chains (depth <= 6 quick / 16 thorough) from roots {arena buffer abutting a leading guard page, abutting a trailing guard page, centred at every address mod 16 with canaries; MmapRegion; GuestRegionMmap / GuestMemoryMmap get_slice}; steps subslice, get_slice, offset, split_at, as_volatile_slice, ArrayRef::from, get_ref<T>->to_slice, get_array_ref<T>->to_slice/ref_at->to_slice, get_atomic_ref<A>, aligned_as_ref/mut<T>, compute_end_offset with arguments from the boundary generator (0, len+-9, 2^31, 2^32, isize::MAX+-1, 2^63, usize::MAX-9.., pointer-overflowing); T in {u8,u16,u32,u64,u128,usize,[u8;3],[u16;5],[u8;0],Le32,Be64}; ByteValued::from_slice/from_mut_slice grid (len 0..23 x misalignment 0..7 x 8 types). distinct key = (operation, type, outcome, boundary class of offset, of count, depth bucket, root kind); non-trivial = request ends within +-9 of the parent end, or an overflow class, or depth >= 2",
+     rule="cases = derivation chains (depth <= 6 quick / 16 thorough) from roots {arena buffer abutting a leading guard page, abutting a trailing guard page, centred at every address mod 16 with canaries; MmapRegion; GuestRegionMmap / GuestMemoryMmap get_slice}; steps subslice, get_slice, offset, split_at, as_volatile_slice, ArrayRef::from, get_ref<T>->to_slice, get_array_ref<T>->to_slice/ref_at->to_slice, get_atomic_ref<A>, aligned_as_ref/mut<T>, compute_end_offset with arguments from the boundary generator (0, len+-9, 2^31, 2^32, isize::MAX+-1, 2^63, usize::MAX-9.., pointer-overflowing); T in {u8,u16,u32,u64,u128,usize,[u8;3],[u16;5],[u8;0],Le32,Be64}; ByteValued::from_slice/from_mut_slice grid (len 0..23 x misalignment 0..7 x 8 types); region- and guest-memory-level atomic store/load on regions of 18 lengths that are not multiples of the access width (1..17, 4090..4102, 8190) x 6 types x offsets around the region end (refused unless the whole object fits and is aligned; the mapping's tail page beyond the region stays untouched; an access crossing into an adjacent next region is refused). distinct key = (operation, type, outcome, boundary class of offset, of count, depth bucket, root kind); non-trivial = request ends within +-9 of the parent end, or an overflow class, or depth >= 2",
      assumptions=["accessor self-reports (ptr_guard().as_ptr(), len(), reference addresses) are the observation; accesses outside the root are observed by guard pages / canaries natively and by ASan / Miri in the thorough tier", "'fits => Ok' is counted, not judged (belongs to C04)"],
      level_text="Runtime extent oracle over tens of thousands of random derivation chains plus guard-page / canary / sanitizer observation of real use; held-on-observed.",
      level_note="Red-zone tools do not see intra-object overflows; the extent arithmetic does not depend on them. A SIGSEGV/SIGBUS of the monitor process is reported as a violation with the announced chain as witness.",
@@ -178,7 +178,7 @@ FLOORS["C01"] = {"chains_depth_ge2": 5000, "distinct_nontrivial": 3000}
 prop("C03", level="exploration",
      title="Guest memory reads and writes behave like one flat sparse byte array",
      technique="history monitor with a flat sparse byte-array model over the interval model: return values, error variants and PartialBuffer counts of every guest-level access are compared with the model, and every region, its mapping slack and its backing file are re-read through an independent path after every step; backends anonymous mmap, MAP_SHARED file, MockMemory (default trait methods, region ending at 2^64-1 plus region at 0), Xen-UNIX in the thorough tier; Miri/ASan passes",
-     rule="cases = histories of 20..200 mixed operations (write/read/write_slice/read_slice, write_obj/read_obj of 1..32-byte objects, atomic store/load, read_volatile_from/read_exact_volatile_from from slices and cursors of shorter/equal/longer length, write_volatile_to/write_all_volatile_to into a Vec, region-level access) on layouts of 1..5 regions (touching, 1-byte and large holes, at 0, next to / at the top of the address space) with start addresses at region edges +-2 and buffer lengths run-1, run, run+1, longer. distinct key = (operation, outcome class, number of regions crossed, position class of the start address, length-vs-run class, backend); all non-trivial",
+     rule="cases = histories of 20..200 mixed operations (write/read/write_slice/read_slice, write_obj/read_obj of 1..32-byte objects, atomic store/load, read_volatile_from/read_exact_volatile_from from slices and cursors of shorter/equal/longer length, write_volatile_to/write_all_volatile_to into a Vec, through short-reading / short-accepting streams, region-level buffer access and region-level stream transfers with counts {1..20, remaining, remaining+1, 2^63, usize::MAX, values whose sum with the offset overflows}) on layouts of 1..5 regions (now and then one longer than 64 KiB) (touching, 1-byte and large holes, at 0, next to / at the top of the address space) with start addresses at region edges +-2 and buffer lengths run-1, run, run+1, longer. distinct key = (operation, outcome class, number of regions crossed, position class of the start address, length-vs-run class, backend); all non-trivial",
      assumptions=["flat byte-array model (models/world.rs) is the specification", "empty buffers are left to C18", "in-memory streams of the exact forms are at least `count` long (short/faulty streams are C14)"],
      level_text="Model-based history monitor with full-memory frame comparison after every step, three backends; held-on-observed.",
      level_note="Trusts the flat model and MockMemory's required methods; host pointers are read by the harness through raw volatile loads.",
@@ -233,13 +233,13 @@ def plan_c04(tier, seed):
 FLOORS["C04"] = {"grid_cells": 6400, "evaluations": 300_000, "distinct_nontrivial": 5000}
 
 # ----------------------------------------------------------------------------------------------
-_C0516_RULE = ("cases = histories of 30..120 operations on GuestMemoryMmap<B> with 1..3 (mostly adjacent) regions, page sizes {1,2,3,7,8,16,64,100,4096,size-1,size,size+1,2*size,random}, bitmap flavours AtomicBitmap (RefSlice views), Option<AtomicBitmap> (Some/None) and an Arc-backed bitmap (ArcSlice views). Write routes: write, write_slice, write_obj, VolatileRef::store, VolatileArrayRef::{store, copy_from, ref_at.store}, copy_from<T>, atomic store, slice->slice and array->slice copies, read_volatile_from/read_exact_volatile_from from &[u8], Cursor, File, a failing descriptor and a reader that fails after a partial fill - at slice level (through accessors reached by random derivation chains of depth 0..6 with non-aligned bases, incl. get_slice / to_slice / ref_at views), region level and guest-memory level (cross-region). Non-writing routes: reads, loads, copy_to, write_volatile_to, queries, derivations, pointer guards, rejected requests. Bitmap reset/reset_addr_range/get_and_reset/reset_bit interleaved. Payloads are the complement of the current contents. distinct key = (route, level, derivation depth, page-size class, page-straddle class of the range, bitmap flavour); all non-trivial")
+_C0516_RULE = ("cases = histories of 30..120 operations on GuestMemoryMmap<B> with 1..3 (mostly adjacent) regions, page sizes {1,2,3,7,8,16,64,100,4096,size-1,size,size+1,2*size,random}, bitmap flavours AtomicBitmap (RefSlice views), Option<AtomicBitmap> (Some/None), an Arc-backed bitmap (ArcSlice views) and a PROBE bitmap implemented by the harness (own Bitmap / BitmapSlice types over an AtomicBitmap) that snapshots the bytes of the pages being marked at the moment of every mark. Write routes: write, write_slice, write_obj, VolatileRef::store, VolatileArrayRef::{store, copy_from, ref_at.store}, copy_from<T>, atomic store, slice->slice and array->slice copies, read_volatile_from/read_exact_volatile_from from &[u8], Cursor, File, a failing descriptor and a reader that fails after a partial fill - at slice level (through accessors reached by random derivation chains of depth 0..6 with non-aligned bases, incl. get_slice / to_slice / ref_at views), region level and guest-memory level (cross-region). Non-writing routes: reads, loads, copy_to, write_volatile_to / write_all_volatile_to into Vec, &mut [u8], a file and a descriptor whose write(2) FAILS (read-only), queries, derivations, pointer guards, rejected requests. Bitmap reset/reset_addr_range/get_and_reset/reset_bit interleaved. Payloads are the complement of the current contents. distinct key = (route, level, derivation depth, page-size class, page-straddle class of the range, bitmap flavour); all non-trivial")
 
 prop("C05", level="exploration",
      title="No tracked write leaves its pages clean (dirty tracking is sound)",
-     technique="diff-driven frame monitor: all bytes and all bitmap bits of all regions are snapshotted around every operation; every byte whose value changed must be reported dirty by the owning region's bitmap at its own offset and by the accessor's own bitmap view; an access may never clear a mark",
+     technique="diff-driven frame monitor: all bytes and all bitmap bits of all regions are snapshotted around every operation; every byte whose value changed must be reported dirty by the owning region's bitmap at its own offset and by the accessor's own bitmap view; an access may never clear a mark; probe flavour: when a page was marked, every byte of it that the operation changed must already have held its new value (a harvest may run at any moment: a page marked before its bytes are written would be collected and the later write go unreported)",
      rule=_C0516_RULE,
-     assumptions=["raw routes (ptr_guard_mut, aligned_as_mut, get_atomic_ref used directly, get_host_address) are exempt by documentation and are not used for writing", "Xen build: the bitmap is created by the region constructor with the system page size, so the xen-debug pass covers Xen-UNIX regions with 4096-byte pages and the plain and Arc-sliced flavours only"],
+     assumptions=["raw routes (ptr_guard_mut, aligned_as_mut, get_atomic_ref used directly, get_host_address) are exempt by documentation and are not used for writing", "write-before-mark order is read into the statement's 'all histories that interleave writes with bitmap resets': a reset may fall between the two halves of one operation", "Xen build: the bitmap is created by the region constructor with the system page size, so the xen-debug pass covers Xen-UNIX regions with 4096-byte pages and the plain and Arc-sliced flavours only"],
      level_text="Diff-driven runtime oracle independent of what each call claims to have written, over thousands of histories x page sizes x bitmap flavours x derivation chains; held-on-observed.",
      level_note="A write whose payload equals the old contents is invisible to a diff; payloads are therefore generated as the bitwise complement of the current bytes.",
      design_ref="DESIGN.md §7 C05")
@@ -302,7 +302,7 @@ FLOORS["C07"] = {"calls": 200_000, "distinct_nontrivial": 5000}
 prop("C13", level="exploration",
      title="Volatile stream adapters transfer data exactly like their std::io counterparts",
      technique="differential twin monitor: every ReadVolatile/WriteVolatile adapter call is mirrored live by the corresponding std::io call on an identical twin stream with an ordinary buffer; return value / error kind, landed bytes, remaining slice, cursor position, vector contents, file offset + contents and peer-received bytes are compared; arena canaries detect writes outside the given buffer; complete grid for the in-memory adapters",
-     rule="cases = (adapter, call sequence). Grid (complete): stream/sink length 0..20 x position {0,mid,len-1,len,len+1,u64::MAX-3,u64::MAX} x buffer length 0..20 x {up-to, exact} plus a second call, for &[u8], Cursor<&[u8]>, Cursor<Vec<u8>>, &mut [u8], Vec<u8>, Cursor<&mut [u8]>. Sequences of 1..12 calls with buffer lengths {0,1,2,7,8,9,15,16,17,24,100,300,4096} on the in-memory adapters and on File, BorrowedFd, UnixStream, OwnedFd over pipes, TcpStream over loopback (reader and writer roles). distinct key = (adapter, call, buffer-vs-available class, side of the 8-byte threshold, call index, std outcome); all non-trivial",
+     rule="cases = (adapter, call sequence). Grid (complete): stream/sink length 0..20 x position {0,mid,len-1,len,len+1,u64::MAX-3,u64::MAX} x buffer length 0..20 x {up-to, exact} plus a second call, for &[u8], Cursor<&[u8]>, Cursor<Vec<u8>>, &mut [u8], Vec<u8>, Cursor<&mut [u8]>. Sequences of 1..12 calls with buffer lengths {0,1,2,7,8,9,15,16,17,24,100,300,4096} on the in-memory adapters and on File, BorrowedFd, UnixStream, OwnedFd over pipes, TcpStream over loopback (reader and writer roles); descriptors on which even an empty transfer has an effect or fails - datagram sockets (writer and reader side), files opened for the other direction, a stream socket whose write side was shut down, pipes without reader / writer - with buffer lengths {0,0,1,2,7,8,9,64}, compared by result and by what the peer receives. distinct key = (adapter, call, buffer-vs-available class, side of the 8-byte threshold, call index, std outcome); all non-trivial",
      exhaustive_note="the in-memory adapter grid (lengths 0..20, 7 cursor positions, both call forms, two consecutive calls)",
      assumptions=["the installed std is the reference (differential, so it tracks the toolchain)", "stream position and buffer contents after a FAILED exact call are unspecified by std and are not compared (only the error kind and containment are)", "TcpStream is driven over loopback (reads only request what is already queued, since a socket may legally return short); the Stdout adapter shares the raw-fd write path and is not driven (it would write into the monitor's own protocol stream)"],
      level_text="Differential runtime oracle against std::io, complete on a small grid and sampled on sequences incl. real descriptors; held-on-observed.",
@@ -330,7 +330,7 @@ FLOORS["C13"] = {"evaluations": 30_000, "distinct_nontrivial": 300, "fd_sequence
 prop("C14", level="fault_enumeration",
      title="Stream transfers lose or duplicate nothing under short I/O, EINTR and errors",
      technique="fault enumeration with a conservation oracle over the event log of a scripted stream: every script over {full, short-1, short-3, zero, EINTR, EINTRx3, EIO, EWOULDBLOCK} up to a bounded length is executed against read_volatile_from / read_exact_volatile_from / write_volatile_to / write_all_volatile_to on a slice, a region, a guest range spanning two regions and one ending in a hole; real descriptors are driven with the same scripts through link-time interposed read(2)/write(2)",
-     rule="cases = (script, entry point, target, count). Enumerated completely: all scripts of length <= 3 (585) in the quick tier, <= 4 (4681) in the thorough tier x 4 entry points x 4 targets x counts {0,1,7,8,9,run-1,run,run+1}. Plus random scripts of length 4..12 and descriptor replays (file source / file sink with the interposer returning short counts, 0, EINTR, EIO, EAGAIN). Checks per execution: consumed bytes are stored in order at consecutive guest addresses (source bytes carry their stream position), bytes handed to the sink are the next guest bytes and every offered buffer starts there, nothing outside the transferred prefix changes, EINTR is never reported and always retried, the first hard error ends the transfer and is reported, exact forms are Ok iff count bytes moved, up-to forms return the bytes moved, PartialBuffer carries (count, moved). distinct key = (entry point, target, script, count class, outcome class); non-trivial = non-empty script",
+     rule="cases = (script, entry point, target, count). Enumerated completely: all scripts of length <= 3 (585) in the quick tier, <= 4 (4681) in the thorough tier x 4 entry points x 4 targets x counts {0,1,7,8,9,run-1,run,run+1}. Plus random scripts of length 4..12, long runs (slice, region and guest ranges with more than 64 KiB inside one region; counts 0xffff, 0x10000, 0x10001, run-1, run, run+1, random) and descriptor replays (file source / file sink with the interposer returning short counts, 0, EINTR, EIO, EAGAIN). Checks per execution: consumed bytes are stored in order at consecutive guest addresses (source bytes carry their stream position), bytes handed to the sink are the next guest bytes and every offered buffer starts there, nothing outside the transferred prefix changes, EINTR is never reported and always retried, the first hard error ends the transfer and is reported, exact forms are Ok iff count bytes moved, up-to forms return the bytes moved, PartialBuffer carries (count, moved). distinct key = (entry point, target, script, count class, outcome class); non-trivial = non-empty script",
      exhaustive_note="all fault scripts up to length 3 (quick) / 4 (thorough) over an 8-letter alphabet on 4 targets x 4 entry points x 8 counts",
      assumptions=["scripts are bounded in length; after the script the stream behaves normally (full transfers)", "guest-level write_volatile_to uses write-all per region, so a zero-length accept surfaces as WriteZero there (accepted)", "a hard error after partial progress makes the up-to forms return the error (accepted: 'any other stream error ends the transfer and is reported')"],
      level_text="Complete enumeration of bounded fault scripts with an offline conservation check per execution, plus descriptor-level replay through an in-process syscall interposer.",
